@@ -4,17 +4,18 @@ import re, zlib
 ID = 'C14'
 PROFILES = ['debug']
 THEOREMS = ['C14_extract', 'C14_binds', 'C14_binds_only', 'C14_rejects_order', 'C14_rejects_pairs', 'C14_rejects_header',
-            'C14_rejects_first', 'C14_rejects_overrun', 'C14_rejects_duplicate', 'C14_ctx_monotone', 'C14_offsets_witness',
+            'C14_rejects_first', 'C14_rejects_overrun', 'C14_rejects_offset_beyond', 'C14_rejects_duplicate', 'C14_ctx_monotone', 'C14_offsets_witness',
             'C14_duplicate_witness']
 KIDS = ['C14-offsets-unused', 'C14-duplicate-overwrites']
 RULE = ('object streams of 1..12 objects of every value kind (integers, reals, names, strings, hex strings, booleans, null, '
         'references, nested arrays and dictionaries) x white-space / comment choices between header numbers and before '
         'objects x gap contents between the end of one object and the declared offset of the next {nothing, white space, '
         'comment, a complete other object, junk} x pre-defined contexts x FlateDecode; every single corruption of a '
-        'header number (offset +-1, swapped, equal, negative, missing pair), of /N and /First, object data running past '
+        'header number (offset +-1, swapped, equal, negative, missing pair; offset = len-1 / len / len+1 / beyond / 2^31..2^64, '
+        'identifier 0 / duplicate / huge), of /N and /First (0, 1, +-1, = len, huge), object data running past '
         'the next offset, duplicate identifiers (inside the stream and against the context); exhaustive: all 2-object '
         'streams over a 4-value alphabet x 5 gaps x offset shifts -1..+1.  non-trivial = success with >= 1 object, or a '
-        'rejection of a case derived from a legal stream by one corruption')
+        'rejection of a case derived from a legal stream by one corruption; any answer other than ok/err (panic) is a violation')
 TRUSTED = ['model coq/Model/ObjStm.v (hand transcription of pdf_streams.rs ObjStreamP and PDFObjContext::register_obj, validated by '
            'this correspondence run) on top of coq/Model/Obj.v (object parser) and coq/Model/Prim.v (token parsers)',
            'the oracle uses its own small PDF object reader (python) for the value located at a declared offset']
@@ -238,8 +239,17 @@ def _queries(obs):
 
 
 def oracle(case, obs, prof):
+    head = obs.split(' | ')[0].split(' ')[0]
+    if head not in ('ok', 'err'):
+        # panic (assert / unwrap / index), crash, timeout: never an acceptable way to reject an object stream
+        return 'the implementation did not answer ok/err but "%s"' % obs[:80]
     v, ctx = _verdict(case)
     if v is None:
+        # not settled by the property text; still, pre-existing definitions must survive
+        got = _queries(obs)
+        for i, val in ctx.items():
+            if i in got and got[i] != val:
+                return 'identifier %d.%d was defined as %s before the call and is %s after it' % (i[0], i[1], val[:60], got[i][:60])
         return None
     res = obs.split(' | ')[0].split(' ')
     got = _queries(obs)
@@ -441,6 +451,44 @@ def cases(tier, rng):
             out.append(os_case(d, c, {}, qs(ids, {}), enc=1))
             out.append(os_case(d, c, {}, qs(ids, {}), depth=0))
             out.append(os_case(dict(d, Filter=oname('LZWDecode')), c, {}, qs(ids, {})))
+    # systematic single corruptions of one header number / of /N / of /First of a legal stream
+    BIG = [2 ** 31, 2 ** 32 - 1, 2 ** 32, 2 ** 63 - 1, 2 ** 63, 2 ** 64 - 1, 2 ** 64]
+    n_s = 60 if tier == 'thorough' else 8
+    for r in range(n_s):
+        n = rng.randrange(1, 5)
+        ids = rng.sample(range(1, 40), n)
+        vals = [rand_value(rng) for _ in range(n)]
+        d, c = build_stream(rng, ids, vals, [b' '] * n)
+        first = int(d['First'][1:])
+        head, body = c[:first], c[first:]
+        nums = head.split()
+        lb = len(body)
+        ctx = {(77, 0): 'i7'} if r % 2 else {}
+        if r % 3 == 0:
+            ctx[(ids[-1], 0)] = 'm' + b'old'.hex()      # the last identifier is already defined
+        q = qs(ids, ctx)
+        for k in range(n):
+            prev = int(nums[2 * k - 1]) if k else -1
+            for off in [lb - 1, lb, lb + 1, lb + 2, lb + 479, prev, prev + 1, 0] + BIG:
+                if off < 0:
+                    continue
+                nn = list(nums)
+                nn[2 * k + 1] = b'%d' % off
+                h2 = b' '.join(nn) + b' '
+                out.append(os_case(dict(d, First='i%d' % len(h2)), h2 + body, ctx, q))
+            for idv in [0, ids[0], 2 ** 31, 2 ** 63 - 1, 2 ** 63, 2 ** 64 - 1]:
+                nn = list(nums)
+                nn[2 * k] = b'%d' % idv
+                h2 = b' '.join(nn) + b' '
+                out.append(os_case(dict(d, First='i%d' % len(h2)), h2 + body, ctx, sorted(set(q + [(idv, 0)])) if idv < 2 ** 63 else q))
+        for nv in [0, 1, n - 1, n + 1, n + 2, 2 ** 31, 2 ** 63 - 1]:
+            out.append(os_case(dict(d, N='i%d' % nv), c, ctx, q))
+        for fv in [0, 1, first - 1, first + 1, len(c) - 1, len(c), len(c) + 1, 2 ** 31, 2 ** 32, 2 ** 63 - 1]:
+            if fv >= 0:
+                out.append(os_case(dict(d, First='i%d' % fv), c, ctx, q))
+    # the seeded witness: header 10 0 11 500 with 21 bytes of content
+    out.append(os_case({'Type': oname('ObjStm'), 'N': 'i2', 'First': 'i12'}, b'10 0 11 500 1 2 3 4 5', {}, [(10, 0), (11, 0)]))
+    out.append(os_case({'Type': oname('ObjStm'), 'N': 'i1', 'First': 'i6'}, b'10 99 1 2 3', {}, [(10, 0)]))
     # object running past the next declared offset
     for v1, v2 in ((b'1234', b'5'), (b'[1 2 3]', b'7'), (b'(abcdef)', b'/N'), (b'<<//A 1>>', b'2')):
         for cut in range(1, len(v1) + 1):
